@@ -428,6 +428,23 @@ theorem ___cds_lfs_pop_all_converse (fuel : Nat) (env : Env) (s : Nat) (cfg : In
       labels <+: out.events.flatMap (absEv .popAll s) ∧ (lrun ls labels).isSome :=
   pop_all_converse fuel env s cfg ls hs hcfg hpc labels hlab
 
+/-- converse for the CAS retry loop of `_cds_lfs_push`: every path of the local automaton from the entry pc that
+stays within the call (`Within`: no label is taken from `idle`; it implies `lrun` accepts the path) is a prefix of
+the abstraction of a source run under a well-typed oracle, for a sufficient loop budget -/
+theorem _cds_lfs_push_converse (env : Env) (s n : Nat) (cfg : Int) (r : Lfs.Ret)
+    (hs : env.vars "u_s" = some (.ptr (.obj s))) (hn : env.vars "node" = some (.ptr (.obj n)))
+    (hcfg : env.priv (.glob "CONFIG_RCU_EMIT_LEGACY_MB") = some (.int cfg))
+    (hnode : n ≠ 0) (labels : List LLabel) (hw : Within ⟨.pushSt n 0, r⟩ labels) :
+    ∃ fuel inp out, (∀ v ∈ inp, (dec v).isSome) ∧ exec fuel Gen.Src.«_cds_lfs_push» env inp = .ok out ∧
+      labels <+: out.events.flatMap (absEv .push s) :=
+  push_converse env s n cfg r hs hn hcfg hnode labels hw
+
+theorem lfs_within_lrun (labels : List LLabel) (ls : LState) (h : Within ls labels) : (lrun ls labels).isSome :=
+  within_lrun labels ls h
+
+example : Within ⟨.pushSt 7 0, .void⟩ [.pushSt 7 0, .pushCas 7 0 9, .pushSt 7 9, .pushCas 7 9 9] :=
+  ⟨by decide, _, rfl, by decide, _, rfl, by decide, _, rfl, by decide, _, rfl, trivial⟩
+
 theorem _cds_lfs_empty_converse (fuel : Nat) (env : Env) (s : Nat) (ls : LState)
     (hs : env.vars "s" = some (.ptr (.obj s)))
     (hpc : ls.pc = .idle) (labels : List LLabel)
